@@ -1825,7 +1825,22 @@ def _bounded_codec(eng, tier, seed):
     # C14 wire: revisions of a delimited type with the same extent inside containers
     CM = S.PrimitiveType.CastMode
     u = lambda n: S.UnsignedIntegerType(n, CM.TRUNCATED)
-    revs = [[("a", u(8))], [("a", u(8)), ("b", u(16))], [("a", u(8)), ("b", u(16)), ("c", u(32))]]
+    # revisions: each is the previous one with a field appended - integers, then a fixed byte string, a fixed uint8 array and a
+    # variable-length utf8 string (decoded through the array code path; all within the extent of 128 bits)
+    revs = [[("a", u(8))], [("a", u(8)), ("b", u(16))], [("a", u(8)), ("b", u(16)), ("c", u(32))],
+            [("a", u(8)), ("b", u(16)), ("c", u(32)), ("d", S.FixedLengthArrayType(S.ByteType(), 3))],
+            [("a", u(8)), ("b", u(16)), ("c", u(32)), ("d", S.FixedLengthArrayType(S.ByteType(), 3)),
+             ("e", S.FixedLengthArrayType(u(8), 2))],
+            [("a", u(8)), ("b", u(16)), ("c", u(32)), ("d", S.FixedLengthArrayType(S.ByteType(), 3)),
+             ("e", S.FixedLengthArrayType(u(8), 2)), ("f", S.VariableLengthArrayType(S.UTF8Type(), 2))]]
+
+    def zero_of(ft):
+        """the value a field unknown to the writer must read as (all bits zero)"""
+        if isinstance(ft, S.FixedLengthArrayType):
+            return bytes(ft.capacity) if isinstance(ft.element_type, S.ByteType) else [0] * ft.capacity
+        if isinstance(ft, S.VariableLengthArrayType):
+            return "" if isinstance(ft.element_type, S.UTF8Type) else []
+        return 0
 
     def mk_struct(name, fields):
         from pathlib import Path
@@ -1847,12 +1862,16 @@ def _bounded_codec(eng, tier, seed):
 
     for i, fw in enumerate(revs):
         for j, fr in enumerate(revs):
-            dw = S.DelimitedType(mk_struct("t.D", fw), 64)
-            dr = S.DelimitedType(mk_struct("t.D", fr), 64)
+            dw = S.DelimitedType(mk_struct("t.D", fw), 128)
+            dr = S.DelimitedType(mk_struct("t.D", fr), 128)
             for (cn, cw), (_, cr) in zip(containers(dw), containers(dr)):
-                for _k in range(10 if tier == "quick" else 100):
+                for _k in range(4 if tier == "quick" else 50):
                     stats["evolution_pairs"] += 1
                     v = _gen_value(rng, cw)
+                    v["tail"] = 255 if cn != "array" else 65535  # non-zero bytes follow the nested object(s)
+                    if cn in ("array", "vararray"):
+                        for el in v["xs"]:
+                            el["a"] = 255  # ... also between array elements
                     try:
                         back = deserialize(cr, serialize(cw, v))
                     except Exception as e:  # noqa
@@ -1869,10 +1888,34 @@ def _bounded_codec(eng, tier, seed):
                         return [x["u"]["d"]] if "d" in x["u"] else []
                     ok = back["tail"] == v["tail"] and len(objs(back)) == len(objs(v))
                     for ow, orr in zip(objs(v), objs(back)):
-                        ok = ok and all(orr[n] == ow[n] for n in common) and all(orr[n] == 0 for n, _ in fr if n not in dict(fw))
+                        ok = ok and all(orr[n] == ow[n] for n in common) and all(orr[n] == zero_of(ft_) for n, ft_ in fr if n not in dict(fw))
                     if cw.bit_length_set != cr.bit_length_set or not ok:
                         bad("delimited-evolution", "writer revision %d, reader revision %d, container %s" % (i, j, cn),
                             {"value": repr(v), "back": repr(back)})
+    # delimited siblings with payloads of different length under one writer (a later payload shorter than an earlier
+    # one): a reader with an appended field must see zeros after the shorter payload, never bytes of an earlier sibling
+    stats["sibling_payload_checks"] = 0
+    vw = [("a", u(8)), ("xs", S.VariableLengthArrayType(u(8), 4))]
+    vr = vw + [("z", u(16)), ("zz", S.FixedLengthArrayType(S.ByteType(), 2))]
+    dw = S.DelimitedType(mk_struct("t.V", vw), 128)
+    dr = S.DelimitedType(mk_struct("t.V", vr), 128)
+    for cw, cr in ((mk_struct("t.K1", [("xs", S.FixedLengthArrayType(dw, 3)), ("tail", u(8))]),
+                    mk_struct("t.K1", [("xs", S.FixedLengthArrayType(dr, 3)), ("tail", u(8))])),
+                   (mk_struct("t.K2", [("p", dw), ("q", dw), ("tail", u(8))]),
+                    mk_struct("t.K2", [("p", dr), ("q", dr), ("tail", u(8))]))):
+        for lens in ((4, 0, 2), (3, 1, 0), (4, 4, 0), (0, 4, 1)):
+            stats["sibling_payload_checks"] += 1
+            els = [{"a": 255, "xs": [255] * n} for n in lens]
+            v = {"xs": els, "tail": 255} if "xs" in [f.name for f in cw.fields] else {"p": els[0], "q": els[1], "tail": 255}
+            try:
+                back = deserialize(cr, serialize(cw, v))
+                got = back["xs"] if "xs" in back else [back["p"], back["q"]]
+                if any(g["z"] != 0 or g["zz"] != bytes(2) for g in got) or back["tail"] != 255 or \
+                        any(g["xs"] != e["xs"] for g, e in zip(got, els)):
+                    bad("delimited-siblings", "appended fields of a sibling do not read as zeros / payload mixed up",
+                        {"value": repr(v), "back": repr(back)})
+            except Exception as e:  # noqa
+                bad("delimited-siblings", "%s: %s" % (type(e).__name__, e), {"value": repr(v)})
     return {"name": "bounded codec stand-in (serializer, composite round trip, length in bit_length_set, truncation / zero "
                     "extension, totality on garbage, delimited evolution)", "level": "bounded",
             "bound": "seeded random nested types (depth <= 3, <= 3 fields) x 3 values; %d types" % budget,
